@@ -490,8 +490,14 @@ func main() {
 	nvals := flag.Int("vals", 1, "generated values per struct (each truncated at every offset)")
 	nmut := flag.Int("mut", 4, "random mutations per value")
 	nver := flag.Int("ver", 2, "scale of verifier cases")
+	nnet := flag.Int("net", 1, "scale of the validator / handler sweep (0 = skip)")
+	parts := flag.String("parts", "struct,ver,net,mem", "which parts to run")
 	in := flag.String("in", "", "replay: JSONL of records to re-run")
 	flag.Parse()
+	if *parts == "p2p" { // separate invocation: the output is written unbuffered, case by case
+		runP2P(*out, *nnet, *in)
+		return
+	}
 	rng := hx.NewRng(hx.SeedFromEnv())
 	o := hx.NewOut(*out)
 	defer o.Close()
@@ -500,6 +506,12 @@ func main() {
 		if err != nil {
 			panic(err)
 		}
+		var env *netEnv
+		defer func() {
+			if env != nil {
+				env.close()
+			}
+		}()
 		for _, line := range strings.Split(string(data), "\n") {
 			if strings.TrimSpace(line) == "" {
 				continue
@@ -521,6 +533,21 @@ func main() {
 					panic("unknown struct " + r.Name)
 				}
 				o.Put(cxs.RunStruct(e, unhex(r.D), r.Gen))
+			case "n":
+				var r nRec
+				if err := json.Unmarshal([]byte(line), &r); err != nil {
+					panic(err)
+				}
+				if env == nil {
+					env = newNetEnv()
+				}
+				o.Put(env.run(r.F, unhex(r.D), r.Gen))
+			case "m":
+				var r mRec
+				if err := json.Unmarshal([]byte(line), &r); err != nil {
+					panic(err)
+				}
+				o.Put(replayMem(r))
 			case "v":
 				var r vRec
 				if err := json.Unmarshal([]byte(line), &r); err != nil {
@@ -533,6 +560,20 @@ func main() {
 		}
 		return
 	}
-	genStructCases(o, rng, *exh, *nvals, *nmut)
-	genVerifierCases(o, rng, *nver)
+	want := map[string]bool{}
+	for _, p := range strings.Split(*parts, ",") {
+		want[p] = true
+	}
+	if want["struct"] {
+		genStructCases(o, rng, *exh, *nvals, *nmut)
+	}
+	if want["ver"] {
+		genVerifierCases(o, rng, *nver)
+	}
+	if want["net"] && *nnet > 0 {
+		genNet(o, rng, *nnet)
+	}
+	if want["mem"] {
+		genMem(o, rng)
+	}
 }
